@@ -86,6 +86,7 @@ impl Issuer {
     pub fn revoke(e: &Env, identity: Address, topic: u32, data: Bytes, revoked: bool) { ci::set_claim_revoked(e, &identity, topic, &data, revoked) }
     pub fn bump(e: &Env, identity: Address, topic: u32) { ci::invalidate_claim_signatures(e, &identity, topic) }
     pub fn nonce(e: &Env, identity: Address, topic: u32) -> u32 { ci::get_current_nonce_for(e, &identity, topic) }
+    pub fn key_allowed(e: &Env, pk: Bytes, topic: u32) -> bool { ci::is_key_allowed_for_topic(e, &pk, 101, topic) }
 }
 
 #[derive(Clone, Copy, Debug, Serialize, Deserialize, PartialEq)]
@@ -139,7 +140,7 @@ impl Check for Identity {
     fn id(&self) -> &'static str { "identity" }
     fn runs(&self, tier: Tier) -> u64 {
         if tier == Tier::Quick {
-            10000
+            4000
         } else {
             200000
         }
@@ -164,6 +165,7 @@ impl Check for Identity {
         let nsteps = if tier == Tier::Quick { 30 + rng.below(40) } else { 30 + rng.below(80) } as usize;
         let mut steps = vec![];
         let mut topics: BTreeSet<u32> = BTreeSet::new();
+        let mut gkeys: BTreeSet<(usize, usize, u32)> = BTreeSet::new(); // (issuer, key, topic) pairs the generator tried to allow
         // directed opening (swarm: only in some runs): one required topic, two trusted issuers for it,
         // a claim from only one of them — so that "any trusted issuer suffices" is exercised from step 6 on
         let mut deadlines: std::vec::Vec<u64> = vec![]; // offsets from T0 of valid_until of issued claims
@@ -195,9 +197,17 @@ impl Check for Identity {
                 14..=25 => Step::AddIssuer { i, ts: some_topics(rng) },
                 26..=29 => Step::RemoveIssuer { i },
                 30..=34 => Step::UpdateIssuer { i, ts: some_topics(rng) },
-                35..=46 => Step::AllowKey { i, key: rng.below(2) as usize, t },
-                47..=50 => Step::RemoveKey { i, key: rng.below(2) as usize, t },
-                51..=70 => { let ttl = match rng.below(4) { 0 => 10, _ => 100 + rng.below(1000) }; deadlines.push(elapsed + ttl); Step::Issue { inv, i, t, key: rng.below(2) as usize, ttl, data: rng.below(3) as u8, tamper: if rng.chance(20) { *rng.pick(&[Tamper::Sig, Tamper::Data, Tamper::OtherTopic, Tamper::OtherIdentity, Tamper::StaleNonce]) } else { Tamper::None } } }
+                35..=46 => {
+                    // often a second topic for a key that is already allowed somewhere (one key, several topics, one registry)
+                    let (i2, key) = match gkeys.iter().next().cloned() { Some((gi, gk, _)) if rng.chance(50) => (gi, gk), _ => (i, rng.below(2) as usize) };
+                    gkeys.insert((i2, key, t));
+                    Step::AllowKey { i: i2, key, t }
+                }
+                47..=52 => {
+                    let gv: std::vec::Vec<(usize, usize, u32)> = gkeys.iter().cloned().collect();
+                    if !gv.is_empty() && rng.chance(75) { let g = *rng.pick(&gv); gkeys.remove(&g); Step::RemoveKey { i: g.0, key: g.1, t: g.2 } } else { Step::RemoveKey { i, key: rng.below(2) as usize, t } }
+                }
+                53..=70 => { let ttl = match rng.below(4) { 0 => 10, _ => 100 + rng.below(1000) }; deadlines.push(elapsed + ttl); Step::Issue { inv, i, t, key: rng.below(2) as usize, ttl, data: rng.below(3) as u8, tamper: if rng.chance(20) { *rng.pick(&[Tamper::Sig, Tamper::Data, Tamper::OtherTopic, Tamper::OtherIdentity, Tamper::StaleNonce]) } else { Tamper::None } } }
                 71..=73 => Step::RemoveClaim { inv, i, t },
                 74..=78 => Step::Revoke { i, inv, t, data: rng.below(3) as u8, on: rng.chance(70) },
                 79..=81 => Step::Bump { i, inv, t },
@@ -336,6 +346,19 @@ impl Check for Identity {
                 if got != exp {
                     let check = if kind == "add_claim" { "add_claim.accepts_iff_valid" } else { "registry.model_eq" };
                     return Err(violation(check, kind, i_step, format!("{s:?}: real {got} model {exp}; now {} keys {:?} trusted {:?}", m.now, m.keys, m.trusted)));
+                }
+            }
+            // "signed by a key currently allowed for the topic": the issuer's key / topic relation equals the model
+            for (ix, iss) in issuers.iter().enumerate() {
+                let icl = IssuerClient::new(e, iss);
+                for key in 0..2usize {
+                    for t in 0..4u32 {
+                        let real = icl.try_key_allowed(&pk(key), &t);
+                        let want = m.keys.contains(&(ix, key, t));
+                        if real != Ok(Ok(want)) {
+                            return Err(violation("issuer.key_allowed_eq_model", "is_key_allowed_for_topic", i_step, format!("issuer {ix} key {key} topic {t}: {real:?}, model {want} after {s:?}; keys {:?}", m.keys)));
+                        }
+                    }
                 }
             }
             st.state(&(m.topics.clone(), m.trusted.clone(), m.held.len(), m.keys.len()));
